@@ -1,25 +1,64 @@
 /* C17 - stateless codecs are safe to call concurrently.
  *
- * case layout:  threads:1 (2..16)  repeats:1  pool: 3 x array-descriptor
+ * case layout:  threads:1 (2..16)  repeats:1  lenmix:1
+ *               hot: { kind:1 par:1 sel:1 units:1 }   (units 0 = no hot loop)
+ *               roles:8   (4 bits per thread: member 0..3, private copy?)
+ *               pool: 3 x array-descriptor
  *               then per thread  nops:1 (1..8) x { codec:1 input:1 }.
  *
  * The pool (three integer arrays, their domain-conforming variants, doubles,
  * one pre-encoded buffer per codec and one prebuilt varintDict) is built by
- * the main thread and is read-only afterwards.  A sequential pass computes a
- * hash of every operation's outputs (returned lengths, bytes up to the
- * returned length, decoded values, metadata fields the library writes).  Then
- * T pthreads start behind a barrier and run their operation lists `repeats`
- * times, writing only to thread-private outputs.
+ * the main thread and is read-only afterwards.  `lenmix` gives each pool slot
+ * a minimum length (none / 64 / 256 / 1024; a shorter generated array is
+ * tiled up to it), so arrays beyond the small-input paths of the codecs are
+ * always present.
  *
- * oracle: in the `tsan` configuration any ThreadSanitizer report kills the
- * process (halt_on_error=1, exitcode=87; the framework captures the in-flight
- * case); in every configuration each thread's hash of each operation must
- * equal the sequential hash.  Packed-array and bitstream histories run on
- * thread-private storage. */
+ * A sequential pass computes the expectation of every operation (hash of
+ * returned lengths, bytes up to the returned length, decoded values, metadata
+ * fields the library writes).  Then T pthreads start behind a barrier and run
+ *
+ *   phase 1  their generated operation lists `repeats` times (every
+ *            repetition of every operation is compared), and
+ *   phase 2  a hot loop: every thread calls the SAME codec entry point (one
+ *            of 17 lean encode / analyse / decode calls, or any of the 22
+ *            phase-1 operations) back to back on one member of a group of
+ *            four inputs of EQUAL length and different contents (member 0 =
+ *            pool array `sel & 3`, members 1,2
+ *            = the contents of the other two pool arrays tiled to that
+ *            length, member 3 = member 0 reversed and shifted).  `role` gives
+ *            the member and whether the thread reads the shared copy or a
+ *            thread-private copy of it.  Threads with the same member hammer
+ *            the same (codec, input) pair - what a memo or cache keyed by the
+ *            input would hit - while the others feed the same codec different
+ *            inputs of the same length.  Every iteration's returned length,
+ *            metadata fields and output bytes are compared with the
+ *            sequentially computed ones.
+ *
+ * All outputs are thread-private.  oracle: in the `tsan` configuration any
+ * ThreadSanitizer report kills the process (halt_on_error=1, exitcode=87; the
+ * framework captures the in-flight case); in every configuration every result
+ * of every thread must equal the sequential one.  The uninstrumented `rel`
+ * configuration runs ~10x the repetitions (narrow windows need volume).
+ *
+ * Schedule dependence: a result mismatch is a fact about one schedule.  To
+ * keep shrinking and confirmation meaningful (a) once this process has
+ * reported a violation, a later case (= a shrink candidate) is reported only
+ * if it fails twice in three runs, and at most SHRINK_BUDGET candidates are
+ * executed at all; (b) the first case of a process (= a replay, or the
+ * deterministic sweep) is run REPLAY_ATTEMPTS times unless it fails earlier.
+ * Neither can create a violation that did not occur.
+ *
+ * Barriers are bounded (a thread that does not arrive within ~20 s breaks the
+ * barrier for everybody and the case is discarded), so a worker cannot hang
+ * on a missing thread. */
 #include "vf.h"
 #include "vf_arr.h"
 
 #include <pthread.h>
+#include <sched.h>
+#include <stdarg.h>
+#include <stdatomic.h>
+#include <time.h>
 
 #include "varint.h"
 #include "varintAdaptive.h"
@@ -53,7 +92,7 @@
 #include "varintPacked.h"
 
 const char *vf_prop_id = "C17";
-const size_t vf_case_maxlen = 200;
+const size_t vf_case_maxlen = 400;
 
 #define NPOOL 3
 #define MAXTHREADS 16
@@ -722,9 +761,8 @@ static uint64_t op_bitstream(const pool_entry *p, unsigned par) {
     return HB(h, bs, sizeof(bs));
 }
 
-static uint64_t op_run(const shared *S, unsigned codec, unsigned input) {
-    const pool_entry *p = &S->p[input % NPOOL];
-    const unsigned par = input / NPOOL;
+static uint64_t op_run_on(const shared *S, const pool_entry *p, unsigned codec,
+                          unsigned par) {
     switch (codec) {
     case O_TAGGED:
     case O_EXTERNAL:
@@ -770,9 +808,12 @@ static uint64_t op_run(const shared *S, unsigned codec, unsigned input) {
     }
 }
 
+static uint64_t op_run(const shared *S, unsigned codec, unsigned input) {
+    return op_run_on(S, &S->p[input % NPOOL], codec, input / NPOOL);
+}
+
 /* -------------------------------------------------------------- pool setup */
-static void pool_build(pool_entry *p, const vf_arr *a) {
-    const size_t n = a->n;
+static void pool_build(pool_entry *p, const uint64_t *src, size_t n) {
     memset(p, 0, sizeof(*p));
     p->n = n;
     p->raw = (uint64_t *)xmalloc(n * 8);
@@ -783,7 +824,7 @@ static void pool_build(pool_entry *p, const vf_arr *a) {
     p->s32 = (uint32_t *)xmalloc(n * 4);
     p->dbl = (double *)xmalloc(n * 8);
     for (size_t i = 0; i < n; i++) {
-        uint64_t v = a->v[i];
+        uint64_t v = src[i];
         p->raw[i] = v;
         p->ge1[i] = v ? v : 1;
         p->sorted[i] = v;
@@ -872,23 +913,540 @@ static void pool_free(pool_entry *p) {
 }
 
 
+/* a deep copy of the inputs of `src` (thread-private variant of the hot loop);
+ * pre-encoded buffers are copied only when the hot kind decodes */
+static void pool_clone(pool_entry *c, const pool_entry *src, int with_enc) {
+    const size_t n = src->n;
+    *c = *src;
+#define DUP(field, sz)                                                         \
+    c->field = xmalloc((sz));                                                  \
+    memcpy(c->field, src->field, (sz))
+    DUP(raw, n * 8);
+    DUP(ge1, n * 8);
+    DUP(sorted, n * 8);
+    DUP(sd, n * 8);
+    DUP(u32, n * 4);
+    DUP(s32, n * 4);
+    DUP(dbl, n * 8);
+#undef DUP
+    for (unsigned e = 0; e < E_COUNT; e++) {
+        c->enc[e] = NULL;
+        if (with_enc && src->enc[e]) {
+            /* the shared buffers have zeroed slack behind the encoding; keep
+             * some so that both variants see the same bytes there */
+            c->enc[e] = (uint8_t *)xzalloc(src->enclen[e] + 64);
+            memcpy(c->enc[e], src->enc[e], src->enclen[e]);
+        }
+    }
+}
+
+/* ---------------------------------------------------------------- hot loop
+ * lean entry points: one library call (plus its size/analysis companion),
+ * results kept as (returned value, metadata words, output bytes) so that each
+ * iteration can be compared field by field */
+enum hot_kind {
+    H_FOR_ENC = 0,
+    H_FOR_ANALYZE,
+    H_PFOR_ENC,
+    H_PFOR_THRESHOLD,
+    H_DICT_ENC,
+    H_DICT_SIZE,
+    H_RLE_ENC,
+    H_RLE_ANALYZE,
+    H_ELIAS_ENC,
+    H_BP128_ENC,
+    H_FLOAT_ENC,
+    H_ADAPT_AUTO,
+    H_ADAPT_FORCED,
+    H_ADAPT_ANALYZE,
+    H_DELTA_ENC,
+    H_GROUP_ENC,
+    H_DECODE,
+    H_COUNT
+};
+
+static const char *const hot_name[H_COUNT] = {
+    "for.encode",     "for.analyze",      "pfor.encode",  "pfor.threshold",
+    "dict.encode",    "dict.size",        "rle.encode",   "rle.analyze",
+    "elias.encode",   "bp128.encode",     "float.encode", "adaptive.encode",
+    "adaptive.forced", "adaptive.analyze", "delta.encode", "group.encode",
+    "decode"};
+
+/* names of the metadata words, in the order hot_call() stores them */
+static const char *const hot_meta[H_COUNT] = {
+    "minValue,maxValue,range,count,encodedSize,offsetWidth",
+    "minValue,maxValue,range,count,encodedSize,offsetWidth",
+    "min,exceptionMarker,thresholdValue,width,count,exceptionCount,threshold",
+    "returnedWidth,min,exceptionMarker,thresholdValue,width,count,"
+    "exceptionCount,threshold",
+    "",
+    "statsOk,uniqueCount,totalCount,dictBytes,indexBytes,totalBytes",
+    "count,runCount,encodedSize",
+    "beneficial,count,runCount,encodedSize,uniqueValues",
+    "count,totalBits,encodedBytes",
+    "count,blockCount,encodedBytes,lastBlockSize,maxBitWidth",
+    "",
+    "originalCount,encodedSize,encodingType",
+    "originalCount,encodedSize,encodingType",
+    "count,minValue,maxValue,range,uniqueCount,avgDelta,maxDelta,outlierCount,"
+    "uniqueRatio,outlierRatio,isSorted,isReverseSorted,fitsInBitmapRange,"
+    "selectedEncoding",
+    "",
+    "groupSize",
+    "aux0,aux1,aux2"};
+
+/* rough relative cost per element, used only to size the iteration count */
+static const uint8_t hot_weight[H_COUNT] = {1, 1, 16, 12, 16, 12, 2, 2, 6,
+                                            1, 8, 16, 8,  12, 2,  1, 3};
+
+#define HOT_MAXMETA 16
+
+typedef struct hot_io {
+    uint8_t *dst;  /* private output, cap_for(n) bytes */
+    uint64_t *out; /* private decode output, max(n, 64) + 8 words */
+    size_t ret;
+    const void *bytes;
+    size_t nbytes;
+    uint64_t meta[HOT_MAXMETA];
+    unsigned nmeta;
+} hot_io;
+
+static uint64_t f32bits(float f) {
+    uint32_t u;
+    memcpy(&u, &f, 4);
+    return u;
+}
+
+static void hot_decode(unsigned par, const pool_entry *p, hot_io *io) {
+    const size_t n = p->n;
+    const unsigned e = par % E_COUNT;
+    const uint8_t *buf = p->enc[e];
+    const size_t len = p->enclen[e];
+    uint64_t *out = io->out;
+    size_t c = 0, width = 8;
+#define M(x) io->meta[io->nmeta++] = (uint64_t)(x)
+    M(e);
+    if (!buf || len == 0) {
+        return;
+    }
+    switch (e) {
+    case E_FOR:
+        c = varintFORDecode(buf, out, n);
+        M(varintFORGetAt(buf, (par / E_COUNT) % n));
+        break;
+    case E_PFOR: {
+        varintPFORMeta dm;
+        memset(&dm, 0, sizeof(dm));
+        c = varintPFORDecode(buf, out, &dm);
+        M(varintPFORGetAt(buf, (uint32_t)((par / E_COUNT) % n), &p->pforMeta));
+        break;
+    }
+    case E_DICT: {
+        c = varintDictDecodeInto(buf, len, out, n);
+        size_t oc = 0;
+        uint64_t *al = varintDictDecode(buf, len, &oc);
+        M(al != NULL);
+        if (al) {
+            M(HB(oc, al, (oc < n ? oc : n) * 8));
+            free(al);
+        }
+        break;
+    }
+    case E_RLE:
+        c = varintRLEDecode(buf, out, n);
+        M(varintRLEGetAt(buf, (par / E_COUNT) % n));
+        M(varintRLEGetRunCount(buf, len));
+        break;
+    case E_RLEH:
+        c = varintRLEDecodeWithHeader(buf, out, n);
+        M(varintRLEGetCount(buf));
+        break;
+    case E_ELIAS_G:
+        c = varintEliasGammaDecodeArray(buf, p->encbits[e], out, n);
+        break;
+    case E_ELIAS_D:
+        c = varintEliasDeltaDecodeArray(buf, p->encbits[e], out, n);
+        break;
+    case E_BP64:
+        c = varintBP128Decode64(buf, out, n);
+        M(varintBP128GetCount(buf, len));
+        break;
+    case E_BPD64:
+        c = varintBP128DeltaDecode64(buf, out, n);
+        break;
+    case E_BP32:
+        c = varintBP128Decode32(buf, (uint32_t *)out, n);
+        width = 4;
+        break;
+    case E_FLOAT:
+        M(varintFloatDecode(buf, n, (double *)out));
+        c = n;
+        break;
+    case E_ADAPTIVE: {
+        varintAdaptiveMeta dm;
+        memset(&dm, 0, sizeof(dm));
+        c = varintAdaptiveDecode(buf, out, n, &dm);
+        M(dm.encodingType);
+        M(dm.originalCount);
+        break;
+    }
+    case E_DELTA:
+        M(varintDeltaDecodeUnsigned(buf, n, out));
+        c = n;
+        break;
+    default: { /* E_GROUP: out has room for 64 fields */
+        uint8_t fc = 0;
+        M(varintGroupDecode(buf, out, &fc, 64));
+        c = fc;
+        io->ret = c;
+        io->bytes = out;
+        io->nbytes = c * 8;
+        return;
+    }
+    }
+    io->ret = c;
+    io->bytes = out;
+    io->nbytes = (c < n ? c : n) * width;
+}
+
+static void hot_call(unsigned kind, unsigned par, const pool_entry *p,
+                     hot_io *io) {
+    static const uint32_t thr[3] = {VARINT_PFOR_THRESHOLD_95,
+                                    VARINT_PFOR_THRESHOLD_90,
+                                    VARINT_PFOR_THRESHOLD_99};
+    const size_t n = p->n;
+    uint8_t *dst = io->dst;
+    io->ret = 0;
+    io->bytes = dst;
+    io->nbytes = 0;
+    io->nmeta = 0;
+    switch (kind) {
+    case H_FOR_ENC:
+    case H_FOR_ANALYZE: {
+        varintFORMeta m;
+        memset(&m, 0, sizeof(m));
+        if (kind == H_FOR_ENC) {
+            io->ret = (par & 1) ? varintFORBatchEncode(dst, p->raw, n, &m)
+                                : varintFOREncode(dst, p->raw, n, &m);
+            io->nbytes = io->ret;
+        } else {
+            if (par & 1) {
+                varintFORBatchAnalyze(p->raw, n, &m);
+            } else {
+                varintFORAnalyze(p->raw, n, &m);
+            }
+            io->ret = varintFORSize(&m);
+        }
+        M(m.minValue);
+        M(m.maxValue);
+        M(m.range);
+        M(m.count);
+        M(m.encodedSize);
+        M(m.offsetWidth);
+        break;
+    }
+    case H_PFOR_ENC:
+    case H_PFOR_THRESHOLD: {
+        varintPFORMeta m;
+        memset(&m, 0, sizeof(m));
+        if (kind == H_PFOR_ENC) {
+            io->ret = varintPFOREncode(dst, p->raw, (uint32_t)n, thr[par % 3], &m);
+            io->nbytes = io->ret;
+            if (io->ret == 0) {
+                break; /* allocation failure: metadata unspecified */
+            }
+        } else {
+            M(varintPFORComputeThreshold(p->raw, (uint32_t)n, thr[par % 3], &m));
+            io->ret = varintPFORSize(&m);
+        }
+        M(m.min);
+        M(m.exceptionMarker);
+        M(m.thresholdValue);
+        M(m.width);
+        M(m.count);
+        M(m.exceptionCount);
+        M(m.threshold);
+        break;
+    }
+    case H_DICT_ENC:
+        io->ret = varintDictEncode(dst, p->raw, n);
+        io->nbytes = io->ret;
+        break;
+    case H_DICT_SIZE: {
+        io->ret = varintDictEncodedSize(p->raw, n);
+        varintDictStats st;
+        memset(&st, 0, sizeof(st));
+        int ok = varintDictGetStats(p->raw, n, &st) == 0;
+        M(ok);
+        if (ok) {
+            M(st.uniqueCount);
+            M(st.totalCount);
+            M(st.dictBytes);
+            M(st.indexBytes);
+            M(st.totalBytes);
+        }
+        break;
+    }
+    case H_RLE_ENC: {
+        varintRLEMeta m;
+        memset(&m, 0, sizeof(m));
+        io->ret = (par & 1) ? varintRLEEncodeWithHeader(dst, p->raw, n, &m)
+                            : varintRLEEncode(dst, p->raw, n, &m);
+        io->nbytes = io->ret;
+        M(m.count);
+        M(m.runCount);
+        M(m.encodedSize);
+        break;
+    }
+    case H_RLE_ANALYZE: {
+        varintRLEMeta m;
+        memset(&m, 0, sizeof(m));
+        M(varintRLEAnalyze(p->raw, n, &m));
+        io->ret = varintRLESize(p->raw, n);
+        M(m.count);
+        M(m.runCount);
+        M(m.encodedSize);
+        M(m.uniqueValues);
+        break;
+    }
+    case H_ELIAS_ENC: {
+        varintEliasMeta m;
+        memset(&m, 0, sizeof(m));
+        io->ret = (par & 1) ? varintEliasDeltaEncodeArray(dst, p->ge1, n, &m)
+                            : varintEliasGammaEncodeArray(dst, p->ge1, n, &m);
+        io->nbytes = io->ret;
+        M(m.count);
+        M(m.totalBits);
+        M(m.encodedBytes);
+        break;
+    }
+    case H_BP128_ENC: {
+        varintBP128Meta m;
+        memset(&m, 0, sizeof(m));
+        switch (par & 3) {
+        case 0:
+            io->ret = varintBP128Encode32(dst, p->u32, n, &m);
+            break;
+        case 1:
+            io->ret = varintBP128DeltaEncode32(dst, p->s32, n, &m);
+            break;
+        case 2:
+            io->ret = varintBP128Encode64(dst, p->raw, n, &m);
+            break;
+        default:
+            io->ret = varintBP128DeltaEncode64(dst, p->sorted, n, &m);
+            break;
+        }
+        io->nbytes = io->ret;
+        M(m.count);
+        M(m.blockCount);
+        M(m.encodedBytes);
+        M(m.lastBlockSize);
+        M(m.maxBitWidth);
+        break;
+    }
+    case H_FLOAT_ENC:
+        io->ret = varintFloatEncode(dst, p->dbl, n,
+                                    (varintFloatPrecision)(par & 3),
+                                    (varintFloatEncodingMode)((par >> 2) % 3));
+        io->nbytes = io->ret;
+        break;
+    case H_ADAPT_AUTO:
+    case H_ADAPT_FORCED: {
+        varintAdaptiveMeta m;
+        memset(&m, 0, sizeof(m));
+        io->ret = kind == H_ADAPT_FORCED
+                      ? varintAdaptiveEncodeWith(
+                            dst, p->raw, n,
+                            (varintAdaptiveEncodingType)(par % 6), &m)
+                      : varintAdaptiveEncode(dst, p->raw, n, &m);
+        io->nbytes = io->ret;
+        if (io->ret) {
+            M(m.originalCount);
+            M(m.encodedSize);
+            M(m.encodingType);
+        }
+        break;
+    }
+    case H_ADAPT_ANALYZE: {
+        varintAdaptiveDataStats st;
+        memset(&st, 0, sizeof(st));
+        varintAdaptiveAnalyze(p->raw, n, &st);
+        M(st.count);
+        M(st.minValue);
+        M(st.maxValue);
+        M(st.range);
+        M(st.uniqueCount);
+        M(st.avgDelta);
+        M(st.maxDelta);
+        M(st.outlierCount);
+        M(f32bits(st.uniqueRatio));
+        M(f32bits(st.outlierRatio));
+        M(st.isSorted);
+        M(st.isReverseSorted);
+        M(st.fitsInBitmapRange);
+        M(varintAdaptiveSelectEncoding(&st));
+        io->ret = st.count;
+        break;
+    }
+    case H_DELTA_ENC:
+        io->ret = (par & 1) ? varintDeltaEncode(dst, p->sd, n)
+                            : varintDeltaEncodeUnsigned(dst, p->raw, n);
+        io->nbytes = io->ret;
+        break;
+    case H_GROUP_ENC: {
+        const uint8_t k = (uint8_t)(n > 64 ? 64 : n);
+        io->ret = varintGroupEncode(dst, p->raw, k);
+        io->nbytes = io->ret;
+        M(varintGroupSize(p->raw, k));
+        break;
+    }
+    default:
+        hot_decode(par, p, io);
+        break;
+    }
+#undef M
+}
+
+/* k-th name of a comma separated list */
+static void nth_name(const char *list, unsigned k, char *out, size_t cap) {
+    const char *s = list;
+    while (k && *s) {
+        if (*s++ == ',') {
+            k--;
+        }
+    }
+    size_t i = 0;
+    while (*s && *s != ',' && i + 1 < cap) {
+        out[i++] = *s++;
+    }
+    out[i] = 0;
+    if (i == 0) {
+        snprintf(out, cap, "#%u", k);
+    }
+}
+
+#define NMEMB 4
+
+typedef struct hot_exp {
+    size_t ret, nbytes;
+    uint8_t *bytes;
+    uint64_t meta[HOT_MAXMETA];
+    unsigned nmeta;
+    uint64_t ophash; /* op kinds */
+} hot_exp;
+
+typedef struct hotctx {
+    int on;
+    unsigned kind; /* < H_COUNT: lean entry point; else H_COUNT + op_kind */
+    unsigned par, group, shift;
+    size_t n;
+    unsigned iters;
+    int need_enc;
+    pool_entry memb[NMEMB]; /* [0] aliases the pool array of the group */
+    hot_exp exp[NMEMB];
+} hotctx;
+
+static const char *hot_kind_name(const hotctx *H, char *buf, size_t cap) {
+    if (H->kind < H_COUNT) {
+        snprintf(buf, cap, "hot.%s", hot_name[H->kind]);
+    } else {
+        snprintf(buf, cap, "hot.op.%s", op_name[H->kind - H_COUNT]);
+    }
+    return buf;
+}
+
 /* ----------------------------------------------------------------- threads */
+/* bounded barrier: a participant that does not arrive within ~20 s (or a
+ * thread that could not be created) breaks it for everybody */
+#define XBAR_TIMEOUT_S 20
+typedef struct xbar {
+    atomic_uint arrived, gen;
+    atomic_int broken;
+    unsigned n;
+} xbar;
+
+static void xbar_init(xbar *b, unsigned n) {
+    atomic_init(&b->arrived, 0);
+    atomic_init(&b->gen, 0);
+    atomic_init(&b->broken, 0);
+    b->n = n;
+}
+
+static int xbar_wait(xbar *b) {
+    if (atomic_load(&b->broken)) {
+        return -1;
+    }
+    const unsigned g = atomic_load(&b->gen);
+    if (atomic_fetch_add(&b->arrived, 1) + 1 == b->n) {
+        atomic_store(&b->arrived, 0);
+        atomic_fetch_add(&b->gen, 1);
+        return 0;
+    }
+    time_t deadline = 0;
+    for (unsigned long i = 0;; i++) {
+        if (atomic_load(&b->gen) != g) {
+            return 0;
+        }
+        if (atomic_load(&b->broken)) {
+            return -1;
+        }
+        if (i < 3000) {
+#if defined(__x86_64__) || defined(__i386__)
+            __builtin_ia32_pause();
+#endif
+        } else if (i < 6000) {
+            sched_yield();
+        } else {
+            /* watchdog only: the clock never influences a verdict, a broken
+             * barrier discards the case */
+            struct timespec ts = {0, 250000}, now;
+            nanosleep(&ts, NULL);
+            if ((i & 63) == 0) {
+                clock_gettime(CLOCK_MONOTONIC, &now);
+                if (deadline == 0) {
+                    deadline = now.tv_sec + XBAR_TIMEOUT_S;
+                } else if (now.tv_sec > deadline) {
+                    atomic_store(&b->broken, 1);
+                    return -1;
+                }
+            }
+        }
+    }
+}
+
+typedef struct failrec {
+    int bad;
+    char site[64], kind[32], detail[420];
+} failrec;
+
 typedef struct oprec {
     uint8_t codec, input;
     uint64_t expect;
 } oprec;
 
-typedef struct worker {
+typedef struct ctl {
+    xbar bar;
+    atomic_int stop; /* somebody saw a mismatch: finish early */
     const shared *S;
-    pthread_barrier_t *bar;
+    const hotctx *H;
+    unsigned nthreads;
+} ctl;
+
+typedef struct worker {
+    ctl *C;
     unsigned id, nops, repeats;
     int cold; /* cold-start pass: every codec once, hashes recorded */
     oprec ops[MAXOPS];
+    /* hot loop */
+    unsigned member;
+    int priv;
+    pool_entry clone;
+    hot_io io;
     /* thread-private results */
     uint64_t cold_hash[O_COUNT];
-    int bad;
-    unsigned bad_op, bad_rep;
-    uint64_t got;
+    unsigned long hot_done;
+    failrec fail;
 } worker;
 
 /* input selector used by thread t for codec k in the cold-start pass */
@@ -902,76 +1460,328 @@ static int cold_capable(unsigned k) {
     return k != O_DECODE_SHARED && k != O_DICT_SHARED;
 }
 
+static void rec_fail(worker *w, const char *site, const char *kind,
+                     const char *fmt, ...) __attribute__((format(printf, 4, 5)));
+static void rec_fail(worker *w, const char *site, const char *kind,
+                     const char *fmt, ...) {
+    if (w->fail.bad) {
+        return;
+    }
+    w->fail.bad = 1;
+    snprintf(w->fail.site, sizeof(w->fail.site), "%s", site);
+    snprintf(w->fail.kind, sizeof(w->fail.kind), "%s", kind);
+    va_list ap;
+    va_start(ap, fmt);
+    vsnprintf(w->fail.detail, sizeof(w->fail.detail), fmt, ap);
+    va_end(ap);
+    atomic_store_explicit(&w->C->stop, 1, memory_order_relaxed);
+}
+
+static int stopped(const ctl *C) {
+    return atomic_load_explicit(&((ctl *)C)->stop, memory_order_relaxed);
+}
+
+static void hot_loop(worker *w) {
+    const ctl *C = w->C;
+    const hotctx *H = C->H;
+    const pool_entry *p = w->priv ? &w->clone : &H->memb[w->member];
+    const hot_exp *e = &H->exp[w->member];
+    char site[64];
+    hot_kind_name(H, site, sizeof(site));
+    const char *variant = w->priv ? "thread-private copy" : "shared copy";
+    for (unsigned it = 0; it < H->iters; it++) {
+        if ((it & 7) == 0 && stopped(C)) {
+            break;
+        }
+        w->hot_done++;
+        if (H->kind >= H_COUNT) {
+            uint64_t h = op_run_on(C->S, p, H->kind - H_COUNT, H->par);
+            if (h != e->ophash) {
+                rec_fail(w, site, "value",
+                         "hot loop: thread %u of %u, iteration %u of %u, %s "
+                         "par=%u on member %u (%s, n=%zu): output hash "
+                         "0x%016llx differs from the sequential run's "
+                         "0x%016llx",
+                         w->id, C->nthreads, it, H->iters,
+                         op_name[H->kind - H_COUNT], H->par, w->member, variant,
+                         p->n, (unsigned long long)h,
+                         (unsigned long long)e->ophash);
+                return;
+            }
+            continue;
+        }
+        hot_io *io = &w->io;
+        hot_call(H->kind, H->par, p, io);
+        if (io->ret != e->ret) {
+            rec_fail(w, site, "length",
+                     "hot loop: thread %u of %u, iteration %u of %u, %s par=%u "
+                     "on member %u (%s, n=%zu): returned %zu, the sequential "
+                     "call returned %zu",
+                     w->id, C->nthreads, it, H->iters, hot_name[H->kind], H->par,
+                     w->member, variant, p->n, io->ret, e->ret);
+            return;
+        }
+        if (io->nmeta != e->nmeta ||
+            memcmp(io->meta, e->meta, io->nmeta * sizeof(io->meta[0])) != 0) {
+            unsigned k = 0;
+            while (k < io->nmeta && k < e->nmeta && io->meta[k] == e->meta[k]) {
+                k++;
+            }
+            char fname[40];
+            nth_name(hot_meta[H->kind], k, fname, sizeof(fname));
+            rec_fail(w, site, "meta",
+                     "hot loop: thread %u of %u, iteration %u of %u, %s par=%u "
+                     "on member %u (%s, n=%zu): metadata field %s = %llu, the "
+                     "sequential call gave %llu",
+                     w->id, C->nthreads, it, H->iters, hot_name[H->kind], H->par,
+                     w->member, variant, p->n, fname,
+                     (unsigned long long)(k < io->nmeta ? io->meta[k] : 0),
+                     (unsigned long long)(k < e->nmeta ? e->meta[k] : 0));
+            return;
+        }
+        if (io->nbytes != e->nbytes ||
+            memcmp(io->bytes, e->bytes, io->nbytes) != 0) {
+            size_t k = 0;
+            const uint8_t *a = (const uint8_t *)io->bytes;
+            while (k < io->nbytes && k < e->nbytes && a[k] == e->bytes[k]) {
+                k++;
+            }
+            rec_fail(w, site, "value",
+                     "hot loop: thread %u of %u, iteration %u of %u, %s par=%u "
+                     "on member %u (%s, n=%zu): output of %zu bytes differs "
+                     "from the sequential call's at byte %zu (0x%02x, "
+                     "sequential 0x%02x)",
+                     w->id, C->nthreads, it, H->iters, hot_name[H->kind], H->par,
+                     w->member, variant, p->n, io->nbytes, k,
+                     k < io->nbytes ? a[k] : 0, k < e->nbytes ? e->bytes[k] : 0);
+            return;
+        }
+    }
+}
+
 static void *worker_main(void *arg) {
     worker *w = (worker *)arg;
-    pthread_barrier_wait(w->bar);
+    ctl *C = w->C;
+    const shared *S = C->S;
+#ifdef C17_SELFTEST_BARRIER
+    /* self-test of the bounded barrier: one thread never arrives */
+    if (w->id == 1 && !w->cold) {
+        return NULL;
+    }
+#endif
+    if (xbar_wait(&C->bar) != 0) {
+        return NULL;
+    }
     if (w->cold) {
         for (unsigned j = 0; j < O_COUNT; j++) {
             unsigned k = (j + 5 * w->id) % O_COUNT;
             if (cold_capable(k)) {
-                w->cold_hash[k] = op_run(w->S, k, cold_input(w->id, k));
+                w->cold_hash[k] = op_run(S, k, cold_input(w->id, k));
             }
         }
         return NULL;
     }
-    for (unsigned rep = 0; rep < w->repeats; rep++) {
+    /* phase 1: the generated operation list, every repetition compared */
+    for (unsigned rep = 0; rep < w->repeats && !stopped(C); rep++) {
         for (unsigned i = 0; i < w->nops; i++) {
-            uint64_t h = op_run(w->S, w->ops[i].codec, w->ops[i].input);
-            if (h != w->ops[i].expect && !w->bad) {
-                w->bad = 1;
-                w->bad_op = i;
-                w->bad_rep = rep;
-                w->got = h;
+            const oprec *o = &w->ops[i];
+            uint64_t h = op_run(S, o->codec, o->input);
+            if (h != o->expect) {
+                rec_fail(w, op_name[o->codec], "value",
+                         "thread %u of %u, repeat %u, op #%u %s input=%u (pool "
+                         "array %u, n=%zu): output hash 0x%016llx differs from "
+                         "the sequential run's 0x%016llx",
+                         w->id, C->nthreads, rep, i, op_name[o->codec], o->input,
+                         o->input % NPOOL, S->p[o->input % NPOOL].n,
+                         (unsigned long long)h, (unsigned long long)o->expect);
+                break;
             }
         }
+    }
+    /* phase 2: hot loop, all threads together */
+    if (C->H && C->H->on) {
+        if (xbar_wait(&C->bar) != 0) {
+            return NULL;
+        }
+        hot_loop(w);
     }
     return NULL;
 }
 
-/* returns 0 when the threads could not be created */
-static int run_threads(worker *W, unsigned nthreads, pthread_barrier_t *bar) {
+/* returns 0 when the threads could not be created or a barrier broke */
+static int run_threads(worker *W, unsigned nthreads, ctl *C) {
     pthread_t tid[MAXTHREADS];
     unsigned started = 0;
+    xbar_init(&C->bar, nthreads);
+    atomic_store(&C->stop, 0);
+    C->nthreads = nthreads;
     for (unsigned t = 0; t < nthreads; t++) {
+        W[t].C = C;
         if (pthread_create(&tid[t], NULL, worker_main, &W[t]) != 0) {
+            /* release the ones already waiting */
+            atomic_store(&C->bar.broken, 1);
             break;
         }
         started++;
     }
-    /* the main thread stands in for threads that could not be created so the
-     * ones already waiting are released */
-    for (unsigned t = started; t < nthreads; t++) {
-        pthread_barrier_wait(bar);
-    }
     for (unsigned t = 0; t < started; t++) {
         pthread_join(tid[t], NULL);
     }
-    return started == nthreads;
+    return started == nthreads && !atomic_load(&C->bar.broken);
 }
 
 /* the library has not been called by this process yet: lazily initialised
  * state would be initialised inside the first concurrent phase */
 static int g_warm;
+/* schedule dependence (see the header comment) */
+#define SHRINK_BUDGET 120
+#define REPLAY_ATTEMPTS 10
+static unsigned long g_cases_run;
+static int g_fail_seen;
+static unsigned g_shrink_runs;
 
-static void run_case(vf_report *rep, shared *S, worker *W, unsigned nthreads) {
-    pthread_barrier_t bar;
+static void hot_free(hotctx *H) {
+    for (unsigned m = 1; m < NMEMB; m++) {
+        if (H->memb[m].raw) {
+            pool_free(&H->memb[m]);
+        }
+    }
+    for (unsigned m = 0; m < NMEMB; m++) {
+        free(H->exp[m].bytes);
+    }
+}
+
+/* build the group of equal-length inputs and the sequential expectations */
+static void hot_setup(shared *S, hotctx *H) {
+    const pool_entry *base = &S->p[H->group];
+    const size_t n = base->n;
+    H->n = n;
+    H->memb[0] = *base; /* alias: not freed through H */
+    uint64_t *v = (uint64_t *)xmalloc(n * 8);
+    for (unsigned m = 1; m < NMEMB; m++) {
+        if (m < 3) {
+            const pool_entry *o = &S->p[(H->group + m) % NPOOL];
+            for (size_t i = 0; i < n; i++) {
+                v[i] = o->raw[i % o->n];
+            }
+        } else {
+            for (size_t i = 0; i < n; i++) {
+                v[i] = base->raw[n - 1 - i] >> H->shift;
+            }
+        }
+        pool_build(&H->memb[m], v, n);
+        if (H->need_enc) {
+            pool_encode(&H->memb[m]);
+        }
+    }
+    free(v);
+    hot_io io;
+    memset(&io, 0, sizeof(io));
+    io.dst = (uint8_t *)xmalloc(cap_for(n));
+    io.out = (uint64_t *)xmalloc(((n > 64 ? n : 64) + 8) * 8);
+    for (unsigned m = 0; m < NMEMB; m++) {
+        hot_exp *e = &H->exp[m];
+        if (H->kind >= H_COUNT) {
+            e->ophash = op_run_on(S, &H->memb[m], H->kind - H_COUNT, H->par);
+            continue;
+        }
+        hot_call(H->kind, H->par, &H->memb[m], &io);
+        e->ret = io.ret;
+        e->nbytes = io.nbytes;
+        e->nmeta = io.nmeta;
+        memcpy(e->meta, io.meta, sizeof(e->meta));
+        e->bytes = (uint8_t *)xmalloc(io.nbytes);
+        memcpy(e->bytes, io.bytes, io.nbytes);
+    }
+    free(io.dst);
+    free(io.out);
+}
+
+/* which parts of the pattern "same pair hammered while others feed the codec
+ * different inputs of the same length" this assignment realises */
+static void hot_classes(const hotctx *H, const worker *W, unsigned nthreads) {
+    unsigned users[NMEMB] = {0, 0, 0, 0}, shared_users[NMEMB] = {0, 0, 0, 0};
+    int priv = 0;
+    for (unsigned t = 0; t < nthreads; t++) {
+        users[W[t].member]++;
+        if (W[t].priv) {
+            priv = 1;
+        } else {
+            shared_users[W[t].member]++;
+        }
+    }
+    int same = 0, other = 0;
+    for (unsigned a = 0; a < NMEMB; a++) {
+        if (shared_users[a] >= 2) {
+            same = 1;
+        }
+        for (unsigned b = a + 1; b < NMEMB; b++) {
+            if (users[a] && users[b] &&
+                memcmp(H->memb[a].raw, H->memb[b].raw, H->n * 8) != 0) {
+                other = 1;
+            }
+        }
+    }
+    if (same) {
+        vf_class("hot.same-input.shared");
+    }
+    if (priv) {
+        vf_class("hot.same-input.private");
+    }
+    if (other) {
+        vf_class("hot.other-input");
+        if (same || priv) {
+            vf_class("hot.pattern");
+        }
+    }
+}
+
+/* one concurrent execution of the case; *f receives the first mismatch.
+ * returns 0 when the case has to be discarded */
+static int run_attempt(shared *S, hotctx *H, worker *W, unsigned nthreads,
+                       failrec *f) {
+    ctl C;
+    memset(&C, 0, sizeof(C));
+    C.S = S;
+    C.H = H;
+    for (unsigned t = 0; t < nthreads; t++) {
+        W[t].fail.bad = 0;
+        W[t].hot_done = 0;
+    }
+    if (!run_threads(W, nthreads, &C)) {
+        return 0;
+    }
+    f->bad = 0;
+    for (unsigned t = 0; t < nthreads; t++) {
+        if (W[t].fail.bad) {
+            *f = W[t].fail;
+            break;
+        }
+    }
+    return 1;
+}
+
+static void run_case(vf_report *rep, shared *S, hotctx *H, worker *W,
+                     unsigned nthreads) {
     int did_cold = 0;
+    const int first_case = g_cases_run == 0;
+    g_cases_run++;
     if (!g_warm) {
         g_warm = 1;
         did_cold = 1;
         vf_class("coldstart");
-        pthread_barrier_init(&bar, NULL, nthreads);
+        ctl C;
+        memset(&C, 0, sizeof(C));
+        C.S = S;
         for (unsigned t = 0; t < nthreads; t++) {
-            W[t].bar = &bar;
             W[t].cold = 1;
         }
-        int ok = run_threads(W, nthreads, &bar);
-        pthread_barrier_destroy(&bar);
+        int ok = run_threads(W, nthreads, &C);
         for (unsigned t = 0; t < nthreads; t++) {
             W[t].cold = 0;
         }
         if (!ok) {
-            vf_discard("pthread_create failed");
+            vf_discard("pthread_create failed or barrier timed out");
             return;
         }
     }
@@ -1002,6 +1812,7 @@ static void run_case(vf_report *rep, shared *S, worker *W, unsigned nthreads) {
                             t, nthreads, op_name[k], cold_input(t, k),
                             (unsigned long long)W[t].cold_hash[k],
                             (unsigned long long)want);
+                    g_fail_seen = 1;
                     return;
                 }
             }
@@ -1014,35 +1825,66 @@ static void run_case(vf_report *rep, shared *S, worker *W, unsigned nthreads) {
             W[t].ops[i].expect = op_run(S, W[t].ops[i].codec, W[t].ops[i].input);
         }
     }
-    pthread_barrier_init(&bar, NULL, nthreads);
-    for (unsigned t = 0; t < nthreads; t++) {
-        W[t].bar = &bar;
+    if (H->on) {
+        hot_setup(S, H);
+        hot_classes(H, W, nthreads);
+        const size_t n = H->n;
+        for (unsigned t = 0; t < nthreads; t++) {
+            worker *w = &W[t];
+            if (w->priv) {
+                pool_clone(&w->clone, &H->memb[w->member], H->need_enc);
+            }
+            if (H->kind < H_COUNT) {
+                w->io.dst = (uint8_t *)xmalloc(cap_for(n));
+                w->io.out = (uint64_t *)xmalloc(((n > 64 ? n : 64) + 8) * 8);
+            }
+        }
     }
-    int ok = run_threads(W, nthreads, &bar);
-    pthread_barrier_destroy(&bar);
+
+    failrec f;
+    memset(&f, 0, sizeof(f));
+    unsigned attempts = first_case ? REPLAY_ATTEMPTS : 1;
+    int ok = 1;
+    for (unsigned a = 0; a < attempts && ok && !f.bad; a++) {
+        ok = run_attempt(S, H, W, nthreads, &f);
+    }
+    if (ok && f.bad && g_fail_seen) {
+        /* a shrink candidate: accept it only if it fails again in one of two
+         * further runs, so that what is kept reproduces */
+        failrec f2;
+        memset(&f2, 0, sizeof(f2));
+        for (unsigned a = 0; a < 2 && ok && !f2.bad; a++) {
+            ok = run_attempt(S, H, W, nthreads, &f2);
+        }
+        if (!f2.bad) {
+            vf_class("shrink.unconfirmed");
+            f.bad = 0;
+        }
+    }
+    unsigned long done = 0;
+    for (unsigned t = 0; t < nthreads; t++) {
+        done += W[t].hot_done;
+    }
+    vf_class_n("hot.iterations", done);
     if (!ok) {
-        vf_discard("pthread_create failed");
+        vf_discard("pthread_create failed or barrier timed out");
         return;
     }
-    for (unsigned t = 0; t < nthreads; t++) {
-        worker *w = &W[t];
-        if (w->bad) {
-            const oprec *o = &w->ops[w->bad_op];
-            char site[64];
-            snprintf(site, sizeof(site), "%s", op_name[o->codec]);
-            vf_fail(rep, site, "value",
-                    "thread %u of %u, repeat %u, op #%u %s input=%u (pool "
-                    "array %u, n=%zu): output hash 0x%016llx differs from the "
-                    "sequential run's 0x%016llx",
-                    t, nthreads, w->bad_rep, w->bad_op, op_name[o->codec],
-                    o->input, o->input % NPOOL, S->p[o->input % NPOOL].n,
-                    (unsigned long long)w->got, (unsigned long long)o->expect);
-            return;
-        }
+    if (f.bad) {
+        g_fail_seen = 1;
+        vf_fail(rep, f.site, f.kind, "%s", f.detail);
     }
 }
 
-static void case_free(shared *S, worker *W) {
+static void case_free(shared *S, hotctx *H, worker *W, unsigned nthreads) {
+    for (unsigned t = 0; t < nthreads; t++) {
+        if (W[t].clone.raw) {
+            pool_free(&W[t].clone);
+        }
+        free(W[t].io.dst);
+        free(W[t].io.out);
+    }
+    hot_free(H);
     if (S->dict) {
         varintDictFree(S->dict);
     }
@@ -1050,26 +1892,132 @@ static void case_free(shared *S, worker *W) {
         pool_free(&S->p[i]);
     }
     free(W);
+    free(H);
     free(S);
 }
 
+/* elements one hot iteration touches (some entry points look at a prefix) */
+static size_t hot_span(unsigned kind, size_t n) {
+    size_t cap = n;
+    if (kind == H_GROUP_ENC) {
+        cap = 64;
+    } else if (kind >= H_COUNT) {
+        switch (kind - H_COUNT) {
+        case O_TAGGED:
+        case O_EXTERNAL:
+        case O_CHAINED:
+        case O_SPLIT:
+            cap = 48;
+            break;
+        case O_GROUP:
+            cap = 64;
+            break;
+        case O_PACKED:
+            cap = 200;
+            break;
+        case O_BITSTREAM:
+            cap = 120;
+            break;
+        default:
+            break;
+        }
+    }
+    return n < cap ? n : cap;
+}
+
+static void len_classes(const char *prefix, size_t n) {
+    static const size_t lim[3] = {64, 256, 1024};
+    for (unsigned i = 0; i < 3; i++) {
+        if (n >= lim[i]) {
+            char cls[48];
+            snprintf(cls, sizeof(cls), "%s.len>=%zu", prefix, lim[i]);
+            vf_class(cls);
+        }
+    }
+}
+
 void vf_run(vf_rd *r, vf_report *rep) {
+    if (g_fail_seen) {
+        /* everything after the first violation of a process is a shrink
+         * candidate (or a later file of a replay list) */
+        if (g_shrink_runs >= SHRINK_BUDGET) {
+            vf_class("shrink.budget-exhausted");
+            vf_desc(rep, "not executed: shrink budget exhausted");
+            return;
+        }
+        g_shrink_runs++;
+    }
+    const int tsan = strcmp(vf_config(), "tsan") == 0;
     unsigned nthreads = 2 + vf_u8(r) % (MAXTHREADS - 1);
     unsigned repeats = 1 + vf_u8(r) % (vf_tier() ? 50 : 16);
-    if (strcmp(vf_config(), "tsan") != 0) {
+    if (!tsan) {
         /* uninstrumented builds are ~10x faster: keep the threads contending
          * for a comparable time */
         repeats *= 8;
     }
+    const uint8_t lenmix = vf_u8(r);
+    const uint8_t hkind = vf_u8(r), hpar = vf_u8(r), hsel = vf_u8(r),
+                  hunits = vf_u8(r);
+    uint8_t roles[MAXTHREADS]; /* 4 bits per thread */
+    for (unsigned t = 0; t < MAXTHREADS; t += 2) {
+        const uint8_t b = vf_u8(r);
+        roles[t] = b & 15;
+        roles[t + 1] = b >> 4;
+    }
     shared *S = (shared *)xzalloc(sizeof(shared));
+    hotctx *H = (hotctx *)xzalloc(sizeof(hotctx));
     const size_t maxlen = vf_tier() ? 4200 : 600;
+    static const uint16_t minlen[4] = {0, 64, 256, 1024};
+    size_t maxn = 0;
     vf_desc(rep, "threads=%u repeats=%u pool=[", nthreads, repeats);
     for (unsigned i = 0; i < NPOOL; i++) {
         vf_arr a;
         vf_take_array(r, &a, maxlen, 0);
-        pool_build(&S->p[i], &a);
-        vf_desc(rep, "%s%.60s", i ? " | " : "", a.desc);
+        const size_t want = minlen[(lenmix >> (2 * i)) & 3];
+        if (a.n < want) {
+            /* tile the generated array up to the slot's minimum length */
+            const size_t n2 = want + a.n - 1;
+            uint64_t *v = (uint64_t *)xmalloc(n2 * 8);
+            for (size_t k = 0; k < n2; k++) {
+                v[k] = a.v[k % a.n];
+            }
+            pool_build(&S->p[i], v, n2);
+            free(v);
+            vf_desc(rep, "%stiled to n=%zu: %.44s", i ? " | " : "", n2, a.desc);
+        } else {
+            pool_build(&S->p[i], a.v, a.n);
+            vf_desc(rep, "%s%.60s", i ? " | " : "", a.desc);
+        }
+        if (S->p[i].n > maxn) {
+            maxn = S->p[i].n;
+        }
         vf_arr_free(&a);
+    }
+    len_classes("pool", maxn);
+
+    /* hot loop parameters */
+    H->on = hunits != 0;
+    H->kind = hkind % (H_COUNT + O_COUNT);
+    H->par = hpar;
+    H->group = (hsel & 3) % NPOOL;
+    H->shift = 8 * ((hsel >> 2) & 7);
+    H->need_enc =
+        H->kind == H_DECODE || H->kind == H_COUNT + (unsigned)O_DECODE_SHARED;
+    char hname[64];
+    hot_kind_name(H, hname, sizeof(hname));
+    if (H->on) {
+        const size_t n = S->p[H->group].n;
+        const unsigned weight = H->kind < H_COUNT ? hot_weight[H->kind] : 10;
+        const uint64_t unit = (tsan ? 640u : 8192u) * (vf_tier() ? 2u : 1u);
+        uint64_t it = (uint64_t)hunits * unit / (hot_span(H->kind, n) * weight);
+        H->iters = it < 4 ? 4 : it > 40000 ? 40000 : (unsigned)it;
+        vf_desc(rep, "] hot=%s par=%u group=%u n=%zu shift=%u iters=%u roles=",
+                hname + 4, H->par, H->group, n, H->shift, H->iters);
+        vf_class(hname);
+        len_classes("hot", n);
+    } else {
+        vf_desc(rep, "] hot=off roles=");
+        vf_class("hot.off");
     }
 
     worker *W = (worker *)xzalloc(sizeof(worker) * nthreads);
@@ -1080,12 +2028,26 @@ void vf_run(vf_rd *r, vf_report *rep) {
     for (unsigned i = 0; i < NPOOL; i++) {
         ch = HB(ch, S->p[i].raw, S->p[i].n * 8);
     }
-    vf_desc(rep, "] ops=");
+    ch = vf_mix(ch, ((uint64_t)H->on << 40) | ((uint64_t)H->kind << 32) |
+                        (H->par << 16) | (H->group << 8) | H->shift);
+    ch = vf_mix(ch, H->iters);
+    unsigned shared_users[NMEMB] = {0, 0, 0, 0};
     for (unsigned t = 0; t < nthreads; t++) {
         worker *w = &W[t];
-        w->S = S;
         w->id = t;
         w->repeats = repeats;
+        const uint8_t role = roles[t];
+        w->member = role & 3;
+        w->priv = (role >> 2) & 1;
+        if (!w->priv) {
+            shared_users[w->member]++;
+        }
+        ch = vf_mix(ch, role & 7);
+        vf_desc(rep, "%u%c", w->member, w->priv ? 'p' : 's');
+    }
+    vf_desc(rep, " ops=");
+    for (unsigned t = 0; t < nthreads; t++) {
+        worker *w = &W[t];
         w->nops = 1 + vf_u8(r) % MAXOPS;
         vf_desc(rep, "%st%u:", t ? " " : "", t);
         for (unsigned i = 0; i < w->nops; i++) {
@@ -1114,6 +2076,13 @@ void vf_run(vf_rd *r, vf_report *rep) {
             }
         }
     }
+    if (H->on) {
+        for (unsigned m = 0; m < NMEMB; m++) {
+            if (shared_users[m] >= 2) {
+                shared_pair = 1;
+            }
+        }
+    }
     {
         char cls[32];
         snprintf(cls, sizeof(cls), "threads.%s",
@@ -1123,13 +2092,14 @@ void vf_run(vf_rd *r, vf_report *rep) {
     if (shared_pair) {
         vf_nontrivial(ch);
     }
-    run_case(rep, S, W, nthreads);
-    case_free(S, W);
+    run_case(rep, S, H, W, nthreads);
+    case_free(S, H, W, nthreads);
 }
 
 /* deterministic smoke case: 16 threads, every codec in several threads on
- * three fixed pool arrays (also a cold start when nothing ran before it in
- * this process) */
+ * three fixed pool arrays, then a hot loop of PFOR encodes over all four
+ * members, shared and private (also a cold start when nothing ran before it
+ * in this process) */
 void vf_sweep(vf_report *rep) {
     static const uint8_t pool[] = {
         /* 128 values of 20 random bits */
@@ -1138,13 +2108,22 @@ void vf_sweep(vf_report *rep) {
         /* 300 sorted values of 40 random bits */
         3, 44, 2, VF_SH_SORTED_RANDOM, 78, 1, 0x91, 0xa2, 0xb3, 0xc4, 0xd5, 0xe6,
         0xf7, 0x18,
-        /* 30 values from a palette of three */
+        /* 30 values from a palette of three (tiled to 1053) */
         0, 29, 0, VF_SH_FEW_UNIQUE, 2, 2, 7, 2, 200, 2, 9, 0x21, 0x43, 0x65,
         0x07};
-    uint8_t c[2 + sizeof(pool) + 16 * (1 + 2 * MAXOPS)];
+    uint8_t c[7 + 8 + sizeof(pool) + 16 * (1 + 2 * MAXOPS)];
     size_t k = 0;
-    c[k++] = 14; /* 16 threads */
-    c[k++] = 3;  /* repeats */
+    c[k++] = 14;         /* 16 threads */
+    c[k++] = 3;          /* repeats */
+    c[k++] = 0x31;       /* minimum lengths: 64, none, 1024 */
+    c[k++] = H_PFOR_ENC; /* hot entry point */
+    c[k++] = 0;          /* par */
+    c[k++] = 1 << 2;     /* group 0, member 3 shifted by 8 bits */
+    c[k++] = 40;         /* units */
+    for (unsigned t = 0; t < 16; t += 2) {
+        /* member t & 3, private copy for t & 4 */
+        c[k++] = (uint8_t)((t & 7) | (((t + 1) & 7) << 4));
+    }
     memcpy(c + k, pool, sizeof(pool));
     k += sizeof(pool);
     for (unsigned t = 0; t < 16; t++) {
